@@ -818,6 +818,12 @@ class PSBT(EmbitBase):
             if key == b"\x00":
                 if tx is None:
                     tx = cls.TX_CLS.parse(value)
+                    # global tx must be unsigned
+                    for inp in tx.vin:
+                        if len(inp.script_sig.data) > 0:
+                            raise PSBTError("Global TX must be unsigned")
+                        if isinstance(inp.witness, Witness) and len(inp.witness.items) > 0:
+                            raise PSBTError("Global TX must be unsigned")
                 else:
                     raise PSBTError(
                         "Failed to parse PSBT - duplicated transaction field"
